@@ -74,7 +74,7 @@ func init() {
 			"tree order of tokens = struct field order with separator lists interleaved with the list they follow (the printer's contract, C15)",
 			"zero-width tokens (Root.EndTkn) may carry the line of the byte before or at their offset",
 		},
-		Plan: func(p core.Params) int { return p.Pick(60000, 3000000) },
+		Plan: func(p core.Params) int { return p.Pick(150000, 3000000) },
 		Run: func(c *core.Ctx, idx int) {
 			c04Case(c, genParseCase(c.P.Seed, "C04", idx, 35))
 		},
